@@ -10,18 +10,6 @@ HIER_TAGS = {k.lower() for k in gen.HIER[:27]}
 BARE_LT = re.compile(r'^([ \t]*(?:LONGTITLE|CROSSHEADING(?:\.[^ \n|{}.]*)*(?:\{[^\n}]*\})?))[ \t]*$', re.M)
 
 
-def _crossheadings_in_footnotes_to_paragraphs(text):
-    ls = text.replace('\t', '  ').split('\n')
-    ind = lambda l: len(l) - len(l.lstrip(' '))
-    out = list(ls)
-    for i, l in enumerate(ls):
-        if re.match(r'^ *CROSSHEADING', l):
-            owner = next((ls[j] for j in range(i - 1, -1, -1) if ls[j].strip() and ind(ls[j]) < ind(l)), None)
-            if owner is not None and re.match(r'^ *FOOTNOTE +[^ ]', owner):
-                out[i] = ' ' * ind(l) + 'x'
-    return '\n'.join(out)
-
-
 def classify(text, root, err):
     k, tag, parent, msg = err['kind'], err['tag'], err['parent'], err['msg']
     text = text.strip()   # what pre_parse does first (any str.isspace character, not only blanks and tabs)
@@ -47,9 +35,10 @@ def classify(text, root, err):
         if tag == 'crossHeading' and parent == 'authorialNote':
             return 'F41'
         if tag == 'crossHeading' and re.search(r'^[ \t]*FOOTNOTE +[^ \n]', text, re.M) and re.search(r'^[ \t]*CROSSHEADING', text, re.M):
-            # F45: an unreferenced FOOTNOTE block is unwrapped where it stands, crossheadings included. Causal: with the
-            # crossheadings that stand directly inside a FOOTNOTE block turned into paragraphs, this error is gone
-            t2 = _crossheadings_in_footnotes_to_paragraphs(text)
+            # F45: an unreferenced FOOTNOTE block is unwrapped where it stands, crossheadings included. Causal: a crossheading
+            # element can stand in such a place only because a FOOTNOTE block admits it — with every FOOTNOTE block line turned
+            # into BLOCKS (which does not), this error is gone. (Nesting is decided by pre_parse, not by comparing indentation.)
+            t2 = re.sub(r'^([ \t]*)FOOTNOTE +[^ \n]+[ \t]*$', r'\1BLOCKS', text, flags=re.M)
             if t2 != text:
                 r2 = real.convert(t2, root)
                 if 'etree' in r2 and not any(e['kind'] == k and e['tag'] == tag and e['parent'] == parent for e in schema.errors(r2['etree'])):
